@@ -46,6 +46,40 @@ def sweep(tier, seed=0):
                         fails.append(rtc.Failure("overlap_trim_identity", {"n": n, "chunks": ch, "depth": depth}, "ensures", "C26-overlap-then-trim-is-identity", msg))
             if time.time() - t0 > budget or len(fails) >= 3:
                 break
+        # 1-D map_overlap with two-sided asymmetric depths (boundary 'none'), chunks smaller than either side included
+        # (allow_rechunk merges them): equals the truncated-window stencil on the whole array
+        for n in range(2, 8 if tier == "quick" else 10):
+            x = np.arange(1, n + 1) ** 2
+            for ch in chunkings(n):
+                for before, after in [(1, 2), (2, 1), (1, 3), (3, 1), (2, 3), (0, 2), (2, 0)]:
+                    if before > n or after > n:
+                        continue
+                    cases += 1
+
+                    def win(b, before=before, after=after):
+                        out = np.zeros_like(b)
+                        for k in range(-before, after + 1):
+                            sh = np.zeros_like(b)
+                            if k >= 0:
+                                sh[: len(b) - k] = b[k:]
+                            else:
+                                sh[-k:] = b[: len(b) + k]
+                            out = out + sh
+                        return out
+
+                    try:
+                        got = da.from_array(x, chunks=(ch,)).map_overlap(win, depth={0: (before, after)}, boundary="none", dtype=x.dtype).compute()
+                        want = win(x)
+                        msg = None if got.shape == want.shape and np.array_equal(got, want) else f"map_overlap gives {got.tolist()}, the whole-array stencil {want.tolist()}"
+                    except Exception as e:  # noqa
+                        msg = f"{type(e).__name__}: {e}"
+                    if msg:
+                        fails.append(rtc.Failure("map_overlap", {"n": n, "chunks": ch, "depth": (before, after), "boundary": "none"}, "ensures", "C26-map_overlap-equals-padded-stencil", msg))
+                        break
+                if fails:
+                    break
+            if time.time() - t0 > budget or fails:
+                break
         # map_overlap vs padding the whole array, 2-D, depth given as int / tuple / dict in any key order
         shapes = [(6, 10), (5, 4)] if tier == "quick" else [(6, 10), (5, 4), (7, 3), (4, 9)]
         for shape in shapes:
@@ -91,6 +125,6 @@ def sweep(tier, seed=0):
             if time.time() - t0 > budget or len(fails) >= 3:
                 break
     return {"function": "dask/array/overlap.py: overlap_internal/trim_internal/map_overlap (real code, NumPy values; bounded only)", "bounded": True,
-            "bound": {"1-D lengths": "1..5 (quick) / 1..7, all chunkings, depths 0,1,2,(1,0),(0,2),(2,1)", "2-D": "fixed shapes x 3 chunkings x 6 depth specs (incl. dicts in both key orders) x 5 boundaries", "time_budget_s": budget},
+            "bound": {"1-D lengths": "1..5 (quick) / 1..7, all chunkings, depths 0,1,2,(1,0),(0,2),(2,1)", "1-D asymmetric": "lengths 2..7 (quick) / 2..9, all chunkings (chunks smaller than the depth included), depths (1,2),(2,1),(1,3),(3,1),(2,3),(0,2),(2,0), boundary none", "2-D": "fixed shapes x 3 chunkings x 6 depth specs (incl. dicts in both key orders) x 5 boundaries", "time_budget_s": budget},
             "cases": cases, "distinct_nontrivial": cases, "failures_found": len(fails), "wall_s": round(time.time() - t0, 2),
             "samples": [{"native_case": {"shape": [6, 10], "chunks": [[6], [10]], "depth": {"1": 2, "0": 1}, "boundary": "reflect"}}], "failures": fails}
